@@ -18,7 +18,7 @@ TECHNIQUE = (
     "names, per-peptide composition, fixed termini, exact reversal, site equality, target block, file round trip"
 )
 RULE = (
-    "case = 1-3 FASTA files with 1-40 (or 450-1300 small) records '>name description', sequences of 0-200 residues "
+    "case = 1-3 FASTA files with 1-40 (or 450-1300 small) records '>name description' (every third description holds a '>' itself), sequences of 0-200 residues "
     "wrapped at a drawn width, with/without final newline, enzyme in {[KR], K, [FWY], [KR](?!P)}, reverse or shuffle, "
     "concatenate on/off, numpy global seed, optionally repeated accessions or input entries that already carry the decoy prefix; every case is preceded by a call with the opposite mode (history), half of them writing to the very output path. "
     "Non-trivial: >=1 protein with >=2 enzymatic peptides of interior length >=2. Distinct = distinct canonical JSON."
@@ -116,7 +116,8 @@ def check(case):
                     name = other if dup == 1 else case["prefix"] + other.replace(case["prefix"], "")
                     ndup += 1
                 targets.append((name, seq))
-                hdr = ">" + name + (" some description OS=Homo sapiens" if f["desc"] else "")
+                descr = " some description OS=Homo sapiens" if k % 3 else " merged entry >gi|77|ref|NP_1.1| other protein, A->G variant"
+                hdr = ">" + name + (descr if f["desc"] else "")
                 lines.append(hdr)
                 for a in range(0, len(seq), f["width"]):
                     lines.append(seq[a:a + f["width"]])
